@@ -289,3 +289,38 @@ def fault_descs(rng, count, types=("d",), classes=("sym", "symsh", "herm", "gen"
             kw["sigmai"] = rng.choice(["0.8", "1.9", "0.3"])
         out.append(desc(**kw))
     return out
+
+
+def geig_basic(rng, count, types=("d",), classes=("gchol", "greginv", "gsi", "gbuck", "gcay"), nmax=32, histories=None, meas=1, lgcs=(2, 6, 12, 20)):
+    """C03 domain: symmetric A, SPD B (K) with condition number 2^lgc, every A/B storage pairing and triangle option, shifts that are
+    not generalized eigenvalues, repeated init()/compute()."""
+    out = []
+    for i in range(count):
+        cls = rng.choice(classes)
+        ty = rng.choice(types)
+        n = rng.randint(8, nmax)
+        nev, ncv = pick_dims(rng, n)
+        fam = rng.choice(["rand", "rand", "pencil"])
+        kw = dict(cls=cls, ty=ty, n=n, nev=nev, ncv=ncv, seed=rng.randint(1, 10 ** 6), fam=fam, lgc=rng.choice(lgcs) if ty != "f" else rng.choice([2, 6]),
+                  uplo=rng.choice(["ll", "uu", "ul", "lu"]), meas=meas)
+        if fam == "pencil":
+            kw["spec"] = rng.choice(["lin", "int", "unif"])
+        if cls == "gchol":
+            kw["store"] = rng.choice(["dd", "ss"])
+        elif cls == "greginv":
+            kw["store"] = "ss"
+        else:
+            kw["store"] = rng.choice(["dd", "ss", "sd", "ds"])
+            kw["sigma"] = rng.choice(["0.37", "-1.63", "2.45", "0.11", "-0.53"])
+        sel = rng.choice(HERM_SEL)
+        if cls in ("gsi", "gbuck", "gcay"):
+            sel = rng.choice([0, 3, 7, 8])   # SmallestMagn of nu (far from the shift) converges very slowly: documented as allowed to fail
+        tol = tol_for(rng, ty)
+        a0 = "%d:%d:%s:%d" % (sel, rng.choice([80, 80, 80, 1, 3, 10]), tol, rng.choice(HERM_SORT))
+        a1 = "%d:%d:%s:%d" % (rng.choice([0, 3, 7]), rng.choice([0, 2, 80]), tol_for(rng, ty), rng.choice(HERM_SORT))
+        kw["args0"] = a0
+        kw["args1"] = a1
+        kw["sv1"] = rng.choice(["rnd", "rnd2"])
+        kw["hist"] = rng.choice(histories or ["N,I,C0", "N,I,C0", "N,V1,C0", "N,I,C0,V1,C1,I,C0", "N,I,C0,C1"])
+        out.append(desc(**kw))
+    return out
